@@ -149,6 +149,7 @@ structure ChunkMeta where
   statMin : Option (List Nat)
   statMax : Option (List Nat)
   filePath : Option (List Nat)
+  encStats : Option (List (Nat × Nat × Nat)) := none     -- encoding_stats: (page_type, encoding, count)
   deriving Repr
 
 def parseChunk (c : TVal) : Except String ChunkMeta :=
@@ -162,8 +163,27 @@ def parseChunk (c : TVal) : Except String ChunkMeta :=
             dataOff := dpo, dictOff := natField m 11, encodings := (listField m 2).filterMap TVal.asNat,
             nullCount := st.bind (natField · 3), statMin := st.bind fun s => (s.field 2).bind TVal.asBytes,
             statMax := st.bind fun s => (s.field 1).bind TVal.asBytes,
-            filePath := (c.field 1).bind TVal.asBytes }
+            filePath := (c.field 1).bind TVal.asBytes,
+            encStats := (m.field 13).map fun _ => (listField m 13).map fun e =>
+              ((natField e 1).getD 99, (natField e 2).getD 99, (natField e 3).getD 0) }
     | _, _, _, _, _, _ => .error "column meta data lacks a required field (type, codec, num_values, sizes, data_page_offset)"
+
+/-- `ColumnMetaData.encodings` / `encoding_stats` describe the pages present: every page's encoding is listed; when
+    statistics per (page type, encoding) are given they count exactly the pages of that kind in the chunk, and every
+    kind present is counted.  First problem found, if any. -/
+def encodingsProblem (encodings : List Nat) (encStats : Option (List (Nat × Nat × Nat))) (pages : List (Nat × Nat)) : Option String :=
+  match pages.find? (fun p => !encodings.contains p.2) with
+  | some p => some s!"a page of type {p.1} uses encoding {p.2}, which ColumnMetaData.encodings {encodings} does not list"
+  | none =>
+    match encStats with
+    | none => none
+    | some st =>
+      match st.find? (fun e => (pages.filter (· == (e.1, e.2.1))).length != e.2.2) with
+      | some e => some s!"encoding_stats counts {e.2.2} page(s) of type {e.1} with encoding {e.2.1}, the chunk holds {(pages.filter (· == (e.1, e.2.1))).length}"
+      | none =>
+        match pages.find? (fun p => !st.any (fun e => e.1 == p.1 && e.2.1 == p.2)) with
+        | some p => some s!"encoding_stats does not mention the page(s) of type {p.1} with encoding {p.2}"
+        | none => none
 
 /-- result of decoding one column chunk -/
 structure ChunkData where
@@ -270,6 +290,9 @@ def decodeChunk (file : Array Nat) (payloads : List (Nat × List Nat)) (leaf : L
   match pages.find? (·.ptypeTag != 2) with
   | some p => if p.hdrOff ≠ cm.dataOff then throw s!"data_page_offset {cm.dataOff} but the first data page is at {p.hdrOff}"
   | none => pure ()
+  match encodingsProblem cm.encodings cm.encStats (pages.map fun p => (p.ptypeTag, p.encoding)) with
+  | some e => throw e
+  | none => pure ()
   match pages.find? (fun p => p.ptypeTag == 2 && p.hdrOff != cm.dictOff.getD p.hdrOff) with
   | some p => throw s!"dictionary_page_offset {cm.dictOff} but the dictionary page is at {p.hdrOff}"
   | none => pure ()
@@ -311,6 +334,14 @@ def footerOf (file : Array Nat) (isMetaFile : Bool) : Except String (TVal × Nat
     match conformant "FileMetaData" v with
     | e :: _ => .error s!"footer does not follow the IDL: {e}"
     | [] => .ok (v, loc, flen)
+
+/-- the row count a footer announces is the sum over its row groups (data files and summary files alike) -/
+def rowCountProblem (fmd : TVal) : Option String :=
+  match natField fmd 3 with
+  | none => some "FileMetaData.num_rows missing"
+  | some total =>
+    let s := ((listField fmd 4).map fun rg => (natField rg 3).getD 0).sum
+    if s ≠ total then some s!"FileMetaData.num_rows {total} but row groups add up to {s}" else none
 
 /-- the pages of every chunk stored in THIS file (for the caller to decompress) -/
 def listPages (file : Array Nat) : Except String (List (PageInfo × Nat)) := do
